@@ -575,7 +575,9 @@ def pkgnames_of(m):
 
 
 TESTIFY_OPTS = [{}, {"unroll-variadic": True}, {"unroll-variadic": False}, {"unroll-variadic": True, "boilerplate-file": "x"},
-                {"mock-build-tags": "mocktag"}, {"unroll-variadic": False, "mock-build-tags": "mocktag && !never", "boilerplate-file": "x"}]
+                {"unroll-variadic": True, "mock-build-tags": "mocktag"},
+                {"unroll-variadic": False, "mock-build-tags": "mocktag && !never", "boilerplate-file": "x"}]
+# (every window of three consecutive sets contains unroll-variadic: true - the corpus sees three consecutive sets per combination)
 MATRYER_OPTS = [{}, {"skip-ensure": True}, {"stub-impl": True}, {"with-resets": True}, {"skip-ensure": True, "stub-impl": True, "with-resets": True},
                 {"skip-ensure": False, "stub-impl": False, "with-resets": False, "boilerplate-file": "x"},
                 {"stub-impl": True, "with-resets": True, "mock-build-tags": "mocktag"}, {"skip-ensure": True, "boilerplate-file": "x", "mock-build-tags": "mocktag"}]
@@ -618,6 +620,25 @@ class C01Gen(gen_pkgs.DenseGen):
             return self.anon_iface(prev), False
         return super().constraint(prev)
 
+    anylike = 0.3
+
+    def sig(self, tparams, depth, max_params=4, max_results=3, allow_variadic=True):
+        """Bias: variadic parameters whose element type merely contains / ends with any or interface{} ([]any, map[string]any,
+        <-chan any, *any, func() any, []interface{}, map[string]interface{}), and the exact ones as controls."""
+        s_ = super().sig(tparams, depth, max_params, max_results, allow_variadic)
+        rng = self.rng
+        if depth == 0 and allow_variadic and s_["params"] and (s_["variadic"] or rng.random() < 0.1) and rng.random() < self.anylike:
+            any_ = gen_pkgs.basic("any")
+            empty = {"k": "iface", "methods": [], "embeds": []}
+            elem = rng.choice([
+                {"k": "slice", "e": any_}, {"k": "map", "key": gen_pkgs.basic("string"), "e": any_},
+                {"k": "chan", "dir": "recv", "e": any_}, {"k": "ptr", "e": any_},
+                {"k": "func", "sig": {"params": [], "variadic": False, "results": [{"n": "", "t": any_}]}},
+                {"k": "slice", "e": empty}, {"k": "map", "key": gen_pkgs.basic("string"), "e": empty}, any_, empty])
+            s_["variadic"] = True
+            s_["params"][-1]["t"] = {"k": "slice", "e": elem}
+        return s_
+
 
 def gen_module(rng, k):
     pools = ("ordinary", "qualifier", "predeclared", "typelike", "case")
@@ -635,7 +656,7 @@ def gen_module(rng, k):
 
 
 SHAPES = ["ShapesPlain", "ShapesVariadic1", "ShapesVariadic0", "ShapesVariadic2", "ShapesAllocated", "ShapesGeneric", "ShapesConstraint",
-          "ShapesEmbedded", "ShapesLongUnnamed", "ShapesLongNamed", "ShapesAnonIface", "ShapesAnonConstraint", "ShapesEmpty"]
+          "ShapesEmbedded", "ShapesLongUnnamed", "ShapesLongNamed", "ShapesAnonIface", "ShapesAnonConstraint", "ShapesVariadicAnyLike", "ShapesEmpty"]
 
 
 def corpus_module():
@@ -645,7 +666,8 @@ def corpus_module():
     if not f.exists():
         return None
     e = gen_pkgs.EXT[0]
-    files = {"ext/http/types.go": gen_pkgs.ext_source(e), "src/src.go": f.read_text()}
+    files = {"ext/http/types.go": gen_pkgs.ext_source(e), "ext/http/company.go": "package http\n\ntype Company struct{ N int }\n",
+             "src/src.go": f.read_text()}
     return {"files": files, "ifaces": [], "static_names": SHAPES, "ext": [e], "std": gen_pkgs.STD, "mod": gen_pkgs.MOD,
             "src": {"path": gen_pkgs.MOD + "/src", "name": "src"}, "corpus": True}
 
@@ -870,9 +892,14 @@ def make_configs(rng, modules, thorough):
             variants = [optlist[(k * 7 + j) % len(optlist)]]
             if m.get("corpus"):                       # the corpus sees every option set (quick: three per combination)
                 variants = optlist if thorough else [optlist[(j + d) % len(optlist)] for d in range(3)]
-            for o in variants:
+            for vi, o in enumerate(variants):
+                only = None
+                if m.get("corpus") and m.get("static_names") is SHAPES and not thorough:
+                    # the corpus file is split in two halves that alternate over the option sets and combinations: the Coq
+                    # evaluation is superlinear in the size of a file; every interface still meets every combination
+                    only = SHAPES[(j + vi) % 2::2]
                 cfgs.append({"module": m, "files": m.get("files"), "template": t, "formatter": f, "placement": p, "opts": dict(o),
-                             "inside_all_guards": bool(m.get("corpus")),
+                             "inside_all_guards": bool(m.get("corpus")), "only_names": only,
                              "filename": "mocks_test.go" if (k + j) % 2 == 0 else "mocks.go",
                              "src_name": m["src"]["name"], "src_path": m["src"]["path"], "pkgnames": pkgnames_of(m), "stream": "main"})
     for n, c in enumerate(cfgs):
